@@ -77,7 +77,7 @@ func (p *Parser) parseFor(parser *Parser) (Node, error) {
 	var elseBody []Node
 
 	// Check for else or endfor
-	if parser.tokenIndex < len(parser.tokens) && parser.tokens[parser.tokenIndex].Type == TOKEN_BLOCK_START {
+	if parser.tokenIndex < len(parser.tokens) && isBlockStartToken(parser.tokens[parser.tokenIndex].Type) {
 		parser.tokenIndex++
 
 		if parser.tokenIndex >= len(parser.tokens) || parser.tokens[parser.tokenIndex].Type != TOKEN_NAME {
@@ -89,7 +89,7 @@ func (p *Parser) parseFor(parser *Parser) (Node, error) {
 			parser.tokenIndex++
 
 			// Expect the block end token
-			if parser.tokenIndex >= len(parser.tokens) || parser.tokens[parser.tokenIndex].Type != TOKEN_BLOCK_END {
+			if parser.tokenIndex >= len(parser.tokens) || !isBlockEndToken(parser.tokens[parser.tokenIndex].Type) {
 				return nil, fmt.Errorf("expected block end after else at line %d", parser.tokens[parser.tokenIndex-1].Line)
 			}
 			parser.tokenIndex++
@@ -101,7 +101,7 @@ func (p *Parser) parseFor(parser *Parser) (Node, error) {
 			}
 
 			// Now expect the endfor
-			if parser.tokenIndex >= len(parser.tokens) || parser.tokens[parser.tokenIndex].Type != TOKEN_BLOCK_START {
+			if parser.tokenIndex >= len(parser.tokens) || !isBlockStartToken(parser.tokens[parser.tokenIndex].Type) {
 				return nil, fmt.Errorf("expected endfor block at line %d", parser.tokens[parser.tokenIndex-1].Line)
 			}
 			parser.tokenIndex++
@@ -121,7 +121,7 @@ func (p *Parser) parseFor(parser *Parser) (Node, error) {
 		}
 
 		// Expect the final block end token
-		if parser.tokenIndex >= len(parser.tokens) || parser.tokens[parser.tokenIndex].Type != TOKEN_BLOCK_END {
+		if parser.tokenIndex >= len(parser.tokens) || !isBlockEndToken(parser.tokens[parser.tokenIndex].Type) {
 			return nil, fmt.Errorf("expected block end after endfor at line %d", parser.tokens[parser.tokenIndex-1].Line)
 		}
 		parser.tokenIndex++
